@@ -24,7 +24,7 @@ from typing import Any
 from detsim import env, gen, minimize, monitors, rng
 from detsim.observe import all_events, exc_token, us
 from detsim.runner import Discard
-from detsim.sched import HarnessError, Scheduler
+from detsim.sched import HarnessError, Scheduler, SimDeadlock, deadlock_result
 
 PROP = "C11"
 LEVEL = "exploration"
@@ -361,6 +361,10 @@ def _execute_session(plan: dict[str, Any]) -> dict[str, Any]:
     harness_error = None
     try:
         sched.run([body_for(i) for i in range(n_clients)])
+    except SimDeadlock as e:
+        # threads / locks the library made itself, all of them scheduled by the simulator:
+        # under this schedule a call never returns (its reference does)
+        return deadlock_result(PROP, e, sched)
     except HarnessError as e:
         harness_error = str(e)
     world.drain_log()
